@@ -42,6 +42,15 @@ def subset_canon(impl, model):
     return model
 
 
+def view_proj(col):
+    """observable of the c18.project model `e6:valid:{loaded}:{defs}:{hovs}:{agree}` per reference (`,`) and step (`;`)
+    -> what a client of the server sees: `e6:{defs}`"""
+    def ref(r):
+        p = r.split(":")
+        return p[0] + ":" + p[3] if len(p) == 6 else r
+    return ";".join(",".join(ref(r) for r in st.split(",")) for st in col.split(";"))
+
+
 class Runner18(vlib.Runner):
     def eval_cases(self, leg, cases):
         if getattr(leg, "batch_model", False):
@@ -65,7 +74,8 @@ class Runner18(vlib.Runner):
             evs, ends = [], [0]
             if f[4] != "-":
                 for g in f[4].split(","):
-                    evs += [e for e in g.split("+") if e[0] != "m"]
+                    # ops of the index model: created / deleted (leg c18.open: didOpen `o` / didClose `x` are none either)
+                    evs += [e for e in g.split("+") if e[0] in "cd"]
                     ends.append(len(evs))
             flat.append(" ".join(f[:4] + [",".join(evs) or "-"]))
             keep.append(ends)
@@ -74,6 +84,10 @@ class Runner18(vlib.Runner):
         for c, i, m, ends in zip(cases, impl, mod, keep):
             parts = (m.split("\t") + ["-", "-"])[:3]
             pick = lambda col: ";".join(col.split(";")[k] for k in ends) if col.count(";") >= ends[-1] else col
+            if getattr(leg, "view_only", False):
+                # leg c18.open observes the real server from outside: per reference the type-6 flag and the definition files
+                pick0 = pick
+                pick = lambda col: view_proj(pick0(col))
             rows.append((c, subset_canon(i, pick(parts[0])), pick(parts[0]), pick(parts[1]), parts[2]))
         return rows
 
@@ -547,6 +561,120 @@ def gen_batch(rng, tier):
     return out
 
 
+def _dec(h):
+    return bytes.fromhex(h).decode("latin1")
+
+
+def gen_open(rng, tier):
+    """Histories of the REAL server (harness leg c18.open) in which watched-files events (created / changed / deleted) name
+    files that have an OPEN document at that moment (seeded change C18-7: such events skipped): `o` didOpen of a module
+    that is on disk, then its file is deleted / rewritten / deleted and created again, with or without a didClose `x`
+    afterwards, mixed with events of files that are not open. Demand (C18_events_full_proved: any history = fresh
+    start): after every step the type-6 diagnostics of the requiring file and the definition on every module string
+    are those of the model after the same created / deleted events = those of a fresh start on the disk of that moment
+    - an open document does not keep a deleted file in the index. Trees, current file, references: gen_project."""
+    n = {"quick": 110, "thorough": 4000, "search": 150}[tier]
+    out = []
+    root = lambda: hx(new_root(rng))
+    M, U = "lib/mod.lua", "util.lua"
+    # the shapes of the seeded change first: delete while open (then close), rewrite while open, replace while open
+    for refs, evs in [(["r" + hx("lib.mod")], ["o" + hx(M), "d" + hx(M)]),
+                      (["r" + hx("lib.mod"), "q" + hx("mod")], ["o" + hx(M), "d" + hx(M), "x" + hx(M)]),
+                      (["r" + hx("lib.mod")], ["o" + hx(M), "m" + hx(M), "x" + hx(M), "d" + hx(M)]),
+                      (["r" + hx("lib.mod"), "d" + hx("util.lua")], ["o" + hx(M), "o" + hx(U), "d" + hx(M) + "+d" + hx(U), "c" + hx(M), "x" + hx(M)]),
+                      (["q" + hx("mod")], ["c" + hx("x/mod.lua"), "o" + hx("x/mod.lua"), "d" + hx(M), "d" + hx("x/mod.lua"), "x" + hx("x/mod.lua")])]:
+        out.append("%s %s %s %s %s" % (root(), "L" + hx(M) + ",L" + hx(U), hx("main.lua"), ",".join(refs), ",".join(evs)))
+    for base in gen_project(rng, tier, n=n + 1)[1:]:
+        f = base.split(" ")
+        present = set(_dec(x[1:]) for x in f[1].split(",") if x[0] == "L")
+        cands = sorted(present | set(_dec(e[1:]) for e in (f[4].split(",") if f[4] != "-" else [])))
+        want = []
+        for r in f[3].split(","):
+            stem = _dec(r[1:])
+            stem = stem[2:] if stem.startswith("./") else stem
+            stem = stem[:-4] if r[0] in "dD" else stem.replace(".", "/")
+            want += [c for c in cands if c[:-4].endswith(stem) or c[:-4].endswith(stem + "/init")]
+        opened, groups = [], []
+        pick = lambda pool: rng.choice([p for p in pool if p in want] or pool) if rng.random() < 0.7 else rng.choice(pool)
+        for _ in range(rng.choice([2, 3, 3, 4, 5, 6])):
+            x = rng.random()
+            closed_here = sorted(present - set(opened))
+            if (x < 0.35 or not opened) and closed_here:
+                y = pick(closed_here)
+                groups.append("o" + hx(y)); opened.append(y)
+            elif x < 0.75 and opened:
+                # an event of an open file (whatever its state on disk)
+                y = rng.choice(opened)
+                if y in present:
+                    e = rng.choice("dddm")
+                    if e == "d":
+                        present.discard(y)
+                else:
+                    e = "c"; present.add(y)
+                g = e + hx(y)
+                if rng.random() < 0.2:
+                    z = rng.choice(cands)          # another path in the same notification
+                    if z != y:
+                        if z in present:
+                            g += "+d" + hx(z); present.discard(z)
+                        else:
+                            g += "+c" + hx(z); present.add(z)
+                groups.append(g)
+            elif x < 0.87 and opened:
+                y = rng.choice(opened)
+                groups.append("x" + hx(y)); opened.remove(y)
+            else:
+                y = rng.choice(cands)
+                if y in present:
+                    groups.append("d" + hx(y)); present.discard(y)
+                else:
+                    groups.append("c" + hx(y)); present.add(y)
+        out.append(" ".join(f[:4] + [",".join(groups)]))
+    return out
+
+
+def open_wellformed(case):
+    """every didOpen names a file that is on disk at that moment and is not open (didOpen of an unknown path is a
+    Created event of its own: class C08 / C02, not this leg), every didClose an open one"""
+    f = case.split(" ")
+    present = set(_dec(x[1:]) for x in f[1].split(",") if x[0] in "LD")
+    opened = set()
+    for g in (f[4].split(",") if f[4] != "-" else []):
+        for e in g.split("+"):
+            p = _dec(e[1:])
+            if e[0] == "o":
+                if p not in present or p in opened:
+                    return False
+                opened.add(p)
+            elif e[0] == "x":
+                if p not in opened:
+                    return False
+                opened.discard(p)
+            elif e[0] == "d":
+                present.discard(p)
+            else:
+                present.add(p)
+    return True
+
+
+def shrink_open(case):
+    return (c for c in shrink_batch(case) if open_wellformed(c))
+
+
+def open_nontrivial(c):
+    """a watched-files event names a file that has an open document"""
+    opened = set()
+    for g in c.split(" ")[4].split(","):
+        for e in g.split("+"):
+            if e[0] == "o":
+                opened.add(e[1:])
+            elif e[0] == "x":
+                opened.discard(e[1:])
+            elif e[1:] in opened:
+                return True
+    return False
+
+
 def shrink_batch(case):
     f = case.split(" ")
     gl = f[4].split(",") if f[4] != "-" else []
@@ -596,16 +724,22 @@ LEGS = [
         nontrivial=lambda c: c.split(" ")[4] != "-"),
     # batches of events naming one path several times (the model takes the batch event by event: Runner18.eval_batch_cases)
     Leg("c18.batch", gen_batch, shrink=shrink_batch, per_case_s=1.0, describe=project_describe),
+    # the REAL server (workspace/didChangeWatchedFiles through LspServer), events of files that have an open document
+    Leg("c18.open", gen_open, shrink=shrink_open, per_case_s=2.0, jobs=max(1, min(vlib.NCPU, 8)), describe=project_describe,
+        nontrivial=open_nontrivial),
 ]
 LEGS[2].set_valued = True
 LEGS[5].set_valued = True
 LEGS[6].batch_model = True
+LEGS[7].batch_model = True
+LEGS[7].view_only = True
 
 TRUSTED = vlib.TRUSTED_COMMON + [
     "oracle: the file system (filefolder.IsFileExist behind FileExistCache) = Section variable disk; the OCaml driver's path normalisation stands for the OS",
     "oracle: Go's regular-expression engine on the line under the cursor (stringutil.GetOpenFileStr: WHERE the import expressions and their quoted literals match - harness leg c18.cursor_rx); modelled on top of it: which literal holds the cursor (cursor_pick), the candidate list (open_list)",
     "modelled, tied by correspondence: common.FileIndexInfo (Insert/Remove/lookups) with common.LuaSuffixIndex / CompleteFilePathToPreStr, calcMatchStrScore, GetBestMatchReferFile / GetBestMatchSuffixFile (the best-scored candidate with the least path), FileResult.CheckReferFile, ReanalyseReferInfo on create/delete events, the tail of stringutil.GetOpenFileStr, FindOpenFileDefine; the variants before each repair are kept in Coq under one boolean per repair (ocaml/c18_run.ml fixed_*)",
     "leg c18.batch: one HandleFileEventChanges call with several events, the same path named more than once; the model takes the batch event by event (the driver's c18.project leg on the flattened events, the steps at the batch ends compared: checks/c18.py eval_batch_cases); a Changed event of an indexed file is no op of the index model; Changed of a file that is not indexed is not generated here (C08 class changed_unknown)",
+    "leg c18.open: the real language server (harness/srv_script.go, fresh process per case) gets the history as LSP messages - didOpen / didClose of module files and workspace/didChangeWatchedFiles for files that are OPEN at that moment; observed from outside: published type-6 diagnostics of the requiring file and textDocument/definition on each module string, compared with the c18.project model on the created / deleted events alone (didOpen / didClose / Changed of a file that is there are no ops of the index model; didOpen only of files that are on disk)",
     "assumed configuration shape: one workspace root, no sub-directories / client ext path, first analysis pass; no file-type associations (every workspace file ends in .lua: guard all_lua of the resolution theorems; a workspace with another indexed file type is run but makes no demand, class non_lua_file)",
 ]
 
